@@ -755,6 +755,12 @@ class ConsumerGroup(Coordinator):
             shutdown_des = []
             for consumers in current_consumers.values():
                 for consumer in consumers:
+                    if not consumer._start_d:
+                        # This consumer has stopped by itself already (its
+                        # processor called stop()): there is nothing to shut
+                        # down, and its shutdown() would fail at once and
+                        # abort the graceful shutdown of all the others.
+                        continue
                     # if we take too long to commit, the server might
                     # reject us because it's already started the new generation
                     try:
